@@ -138,4 +138,9 @@ def check(ctx: Ctx) -> str:
     from ..escrules import runtime_selector_rule
 
     runtime_selector_rule(ctx, "R6")
+    # new-style gettext callables are pass_context: inside loops / blocks they are called with
+    # a derived context and read its eval_ctx.autoescape
+    from .c37 import derived_context_rule
+
+    derived_context_rule(ctx, "R7")
     return __doc__ or ""
